@@ -526,7 +526,7 @@ def changeOwnerAddress (env : Env) (c : Call) : M VMOutput := do
     guardE (c.caller ≠ acct.owner) OperationNotPermitted
     tick .o
     guardE (a0.length ≠ c.rcv.length) Other       -- account's own ChangeOwnerAddress check (Appendix C, E8)
-    setAcct c.rcv { acct with owner := a0 }
+    setOwner c.rcv a0
     pure { rc := 0, gasRemaining := gasRemaining }
 
 def claimDeveloperRewards (env : Env) (c : Call) : M VMOutput := do
@@ -542,7 +542,7 @@ def claimDeveloperRewards (env : Env) (c : Call) : M VMOutput := do
     guardE (c.gas < cost) NotEnoughGas
     tick .c
     let value := acct.reward
-    setAcct c.rcv { acct with reward := 0 }
+    setReward c.rcv 0
     let tr : OutTransfer := { value := value, gasLimit := 0, callType := 0, sender := c.caller }
     let (tr, gasRemaining) := if c.callType = 1
       then ({ tr with gasLocked := c.gasLocked, gasLimit := gasRemaining, callType := 2 }, 0)
@@ -554,7 +554,7 @@ def claimDeveloperRewards (env : Env) (c : Call) : M VMOutput := do
       tick .b
       let snd ← getAcct c.caller
       guardE (snd.balance + value < 0) Other
-      setAcct c.caller { snd with balance := snd.balance + value }
+      setBalance c.caller (snd.balance + value)
       if isSmartContractAddress c.caller then pure { out with outAccts := [] } else pure out
 
 def setUserName (env : Env) (c : Call) : M VMOutput := do
@@ -573,7 +573,7 @@ def setUserName (env : Env) (c : Call) : M VMOutput := do
   else
     let acct ← getAcct c.rcv
     guardE (!env.nameChange ∧ acct.name.length > 0) UserNameChangeIsDisabled
-    setAcct c.rcv { acct with name := a0 }
+    setName c.rcv a0
     pure { rc := 0, gasRemaining := c.gas - cost }
 
 /-! ### ESDTNFTTransfer (esdtNFTTransfer.go) -/
